@@ -43,6 +43,8 @@ def parse_type(s):
     alts = _split_union(s)
     if len(alts) > 1:
         return ('union', tuple(parse_type(x) for x in alts))
+    if s == 'Logger':
+        return ('logger',)
     simple = {'int': T_INT, 'bool': T_BOOL, 'str': T_STR, 'None': T_NONE,
               'Val': T_VAL, 'object': T_VAL, 'Any': T_VAL}
     if s in simple:
@@ -65,6 +67,10 @@ def parse_type(s):
             return ('reclist', parts[0].strip())
         if head in ('map',):
             return ('map', parse_type(parts[0]), parse_type(parts[1]))
+        if head == 'recseq':
+            return ('recseq', parts[0].strip())        # growing list of records (struct of sequences)
+        if head == 'idxlist':
+            return ('idxlist', parts[0].strip())       # list of references into a reclist (by index)
         if head == 'exc':
             return ('exc', parts[0].strip())           # an exception instance of exactly this class
         if head == 'Exc':
@@ -213,6 +219,16 @@ class VRef(V):
         return 'VRef(%s)' % self.loc
 
 
+class VEmptyList(V):
+    """The empty list at spec level (element type taken from the context it is used in)."""
+
+    def __repr__(self):
+        return 'VEmptyList'
+
+
+EMPTY_LIST = VEmptyList()
+
+
 class VFunc(V):
     """A function/lambda defined in the code under analysis (inlined on call)."""
     __slots__ = ('node', 'frame', 'defaults', 'name', 'modname')
@@ -308,6 +324,33 @@ class HObjList(object):
     def __init__(self, n, cls):
         self.n = n
         self.cls = cls
+
+
+class HRecSeq(object):
+    """Growing list of records: field f of element j is At(fields[f], j); all field sequences have length n."""
+    __slots__ = ('cls', 'fields', 'n')
+
+    def __init__(self, cls, fields, n):
+        self.cls = cls
+        self.fields = dict(fields)      # f -> (Seq term, element type)
+        self.n = n
+
+
+class HIdxList(object):
+    """List of references to elements of a symbolic record list (VRecList), kept as the Seq Int of their indices."""
+    __slots__ = ('base', 'idx')
+
+    def __init__(self, base, idx):
+        self.base = base                # VRecList
+        self.idx = idx
+
+
+class HOpaque(object):
+    """Write-only container (e.g. a dict of timings keyed by objects): stores are accepted, reads are undecided."""
+    __slots__ = ('what',)
+
+    def __init__(self, what):
+        self.what = what
 
 
 class HMap(object):
